@@ -220,9 +220,15 @@ class AsyncProtocol(Protocol, EventManager[PhysicalDevice]):
         await self.connected.wait()
         while self.connected.is_set():
             frame = await queue.get()
-            device = await self.get_device_entry(frame.sender)
-            device.handle_frame(frame)
-            queue.task_done()
+            try:
+                device = await self.get_device_entry(frame.sender)
+                device.handle_frame(frame)
+            except Exception:
+                _LOGGER.exception(
+                    "Can't handle received frame (%s)", type(frame).__name__
+                )
+            finally:
+                queue.task_done()
 
     async def get_device_entry(self, device_type: DeviceType) -> PhysicalDevice:
         """Set up or return a device entry."""
